@@ -478,6 +478,12 @@ def build_evidence(module, tier, root_seed, outs, wall, reported, known_hits, he
         "harness_errors": len(herrs),
         "slowest_runs_real_s": sorted(((o.get("real_s", 0), o["index"]) for o in outs), reverse=True)[:5],
     }
+    st_path = os.path.join(VERIF_DIR, "selftest_determinism.json")
+    if os.path.exists(st_path):
+        with open(st_path, encoding="utf8") as f:
+            cov["last_recorded_determinism_selftest"] = dict(
+                json.load(f).get(module.ID, {}), note="recorded by `check.py --selftest determinism`, not re-run by this check"
+            )
     extra = getattr(module, "evidence_extra", None)
     if extra is not None:
         cov.update(extra(outs))
@@ -506,6 +512,7 @@ def digests(prop_id, root_seed, tier, n):
 
 def selftest_determinism(prop_ids, root_seed, n=200):
     bad = 0
+    record = {}
     for pid in prop_ids:
         res = []
         for hashseed, workers in (("0", "16"), ("12345", "3")):
@@ -531,4 +538,14 @@ def selftest_determinism(prop_ids, root_seed, n=200):
             mism = [i for i in res[0] if res[0][i] != res[1].get(i)]
             print(f"selftest determinism {pid}: compared={len(res[0])} mismatches={len(mism)} {mism[:5]}")
             bad += len(mism)
+            record[pid] = {"runs_compared": len(res[0]), "mismatches": len(mism), "seed": root_seed,
+                           "configurations": "fresh interpreters: PYTHONHASHSEED=0 with 16 workers vs PYTHONHASHSEED=12345 with 3 workers"}
+    path = os.path.join(VERIF_DIR, "selftest_determinism.json")
+    old = {}
+    if os.path.exists(path):
+        with open(path, encoding="utf8") as f:
+            old = json.load(f)
+    old.update(record)
+    with open(path, "w", encoding="utf8") as f:
+        json.dump(old, f, indent=1, sort_keys=True)
     return 1 if bad else 0
